@@ -181,6 +181,28 @@ func genBatchReq(r *fw.Rng) *batchReq {
 	// content: pick the kind so that ties and differences in part counts both occur
 	kinds := []codingKind{kASCII, kLatin1, kUCS2, kGB, kGSMUnpacked, kGSMPacked}
 	kind := kinds[r.Intn(len(kinds))]
+	if edgeUnits > 0 && edgeMulti {
+		// only multi-unit characters: blind cutting needs <= 255 parts where whole-character cutting needs more
+		var ch rune
+		u, per := 2, 153
+		switch edgeKind {
+		case kUCS2:
+			ch, u, per = 0x1f600, 4, 134
+		case kGB:
+			ch, u, per = 0x1f600, 4, 134
+		default:
+			ch = '['
+		}
+		lo, hi := 255*(per/u), 255*per/u
+		k := []int{lo - 1, lo, lo + 1, (lo + hi) / 2, hi - 1, hi, hi + 1}[r.Intn(7)]
+		rs := make([]rune, k)
+		for i := range rs {
+			rs[i] = ch
+		}
+		b.content = string(rs)
+		b.ref = byte(r.Pick(0, 1, 107, 255))
+		return b
+	}
 	if edgeUnits > 0 {
 		b.content = exactUnits(r, edgeKind, edgeUnits)
 		b.ref = byte(r.Pick(0, 1, 107, 255))
@@ -206,6 +228,7 @@ func genBatchReq(r *fw.Rng) *batchReq {
 var (
 	edgeKind  codingKind
 	edgeUnits int
+	edgeMulti bool
 )
 
 // exactUnits builds a text whose encoding under kind has exactly n units, from single-unit characters
@@ -340,14 +363,15 @@ func init() {
 			{
 				// contents that fill exactly 254/255/256 parts (+-1 unit) of one coding: the edge of the part-count limit,
 				// where a candidate must stay usable at 255 parts and must be dropped at 256
-				Name: "edge255", N: q(1440, 40000),
+				Name: "edge255", N: q(2880, 60000),
 				Run: func(c *fw.Case) {
 					kinds := []codingKind{kASCII, kLatin1, kUCS2, kGB, kGSMUnpacked, kGSMPacked}
 					kind := kinds[c.Idx%6]
 					parts := []int{254, 255, 256}[c.Idx/6%3]
 					delta := []int{-1, 0, 0, 1}[c.Idx/18%4]
 					edgeKind, edgeUnits = kind, parts*map[bool]int{true: 153, false: 134}[kind == kGSMUnpacked || kind == kGSMPacked]+delta
-					defer func() { edgeUnits = 0 }()
+					edgeMulti = c.Idx/72%2 == 1 && (kind == kUCS2 || kind == kGB || kind == kGSMUnpacked || kind == kGSMPacked)
+					defer func() { edgeUnits, edgeMulti = 0, false }()
 					c09Case(c, 2, false)
 				},
 			},
